@@ -407,7 +407,11 @@ def _crc(chk, repo, folder):
         st = attr_stores(pr.node, "_value")
         ok = len(st) == 1 and src(st[0].value) == "binascii.crc_hqx(data, self._value)"
         st0 = attr_stores(ini.node, "_value")
-        ok = ok and len(st0) == 1 and folder.try_fold(st0[0].value, Scope(crc.mod), None) == 0
+        # the transfer constructs it without arguments (checked above: `sdo_client.crc_cls()`): parameters hold their defaults
+        a_ = ini.node.args
+        dflt = {p_.arg: folder.try_fold(d_, Scope(crc.mod), None) for p_, d_ in zip((a_.posonlyargs + a_.args)[len(a_.posonlyargs + a_.args) - len(a_.defaults):], a_.defaults)}
+        dflt.update({p_.arg: folder.try_fold(d_, Scope(crc.mod), None) for p_, d_ in zip(a_.kwonlyargs, a_.kw_defaults) if d_ is not None})
+        ok = ok and len(st0) == 1 and folder.try_fold(st0[0].value, Scope(crc.mod, None, dflt), None) == 0 and type(folder.try_fold(st0[0].value, Scope(crc.mod, None, dflt), None)) is int
         rets = [n for n in own_nodes(fin.node) if isinstance(n, ast.Return)]
         ok = ok and len(rets) == 1 and src(rets[0].value) == "self._value"
     chk.check(ok, "R6", f"{SB}:CrcXmodem | CRC-16/XMODEM", f"{SB}:{crc.node.lineno}", "the block CRC is not binascii.crc_hqx chained from 0")
